@@ -56,8 +56,13 @@ DEFECTS = {
                   ("file r.txt = 'a' -transformed-by filter contents matches '['", ALLP),
                   ("stdout matches '('", ('assert',))],
 }
+# the symbol definitions, each followed by a *legal* reference to the symbol: a defective reference inserted later is
+# then never the first reference to its symbol (a validator that checks only the first reference would miss it)
 BASE_DEFS = ['def string STRSYM = s', 'def list LISTSYM = a b', 'def path HOMEP = -rel-home hp',
-             'def path HOMEP2 = @[HOMEP]@/sub']
+             'def path HOMEP2 = @[HOMEP]@/sub',
+             'file legal-ref-1.txt = "@[STRSYM]@ @[LISTSYM]@"',
+             'copy @[HOMEP]@/sub/keep.txt legal-ref-2.txt',
+             'copy @[HOMEP2]@/keep.txt legal-ref-3.txt']
 ERR_IDENTS = {'SYNTAX_ERROR', 'FILE_ACCESS_ERROR', 'VALIDATION_ERROR'}
 
 
